@@ -70,7 +70,8 @@ def crash_pairs(prog: dict, pairs: list[tuple[int, int]]) -> list[dict]:
 
 
 def schedule(prog: dict, seed: int, p_withhold: float = 0.15, p_sweep: float = 0.0, max_sweeps: int = 0,
-             cancel_at: int = -1, early: int = 0, max_steps: int = 600, fifo_after: int = -1) -> dict:
+             cancel_at: int = -1, early: int = 0, max_steps: int = 600, fifo_after: int = -1,
+             signal_at: int = -1, signal_pers: bool = True, signals: int = 1, claim_sweep: bool = False) -> dict:
     """One seeded random delivery schedule: any visible message next, acks withheld with probability
     p_withhold (redelivered after a lock expiry), optional sweeps / cancel / spurious StartStage."""
     rng = random.Random(seed)
@@ -84,8 +85,17 @@ def schedule(prog: dict, seed: int, p_withhold: float = 0.15, p_sweep: float = 0
             step += 1
             if cancel_at == step:
                 run.send_cancel()
+            if signal_at == step:
+                for tgt in signal_targets(prog):
+                    for _i in range(signals):
+                        run.send_signal(tgt, signal_pers)
+            if claim_sweep and rng.random() < 0.1:
+                run.claim_sweep()
             rows = run.rows()
             if not rows:
+                if 0 <= step < signal_at:     # the run went quiet (suspended) before the signal was due
+                    step = signal_at - 1
+                    continue
                 break
             vis = [r for r in rows if not r["locked"] and not r["delayed"] and r["att"] < r["max"]]
             locked = [r for r in rows if r["locked"]]
@@ -119,9 +129,14 @@ def schedule(prog: dict, seed: int, p_withhold: float = 0.15, p_sweep: float = 0
         return run.as_trace({"kind": "schedule", "seed": seed, "cancel_at": cancel_at, "steps": step,
                              "opts": {"p_withhold": p_withhold, "p_sweep": p_sweep, "max_sweeps": max_sweeps,
                                       "cancel_at": cancel_at, "early": early, "max_steps": max_steps,
-                                      "fifo_after": fifo_after}})
+                                      "fifo_after": fifo_after, "signal_at": signal_at, "signal_pers": signal_pers,
+                                      "signals": signals, "claim_sweep": claim_sweep}})
     finally:
         run.close()
+
+
+def signal_targets(prog: dict) -> list[str]:
+    return [s["ref"] for s in prog["stages"] if any(t["k"] == "suspend" for t in s["tasks"])]
 
 
 def fifo_with_injection(prog: dict, at_step: int, what: str, times: int = 1) -> dict:
@@ -147,6 +162,47 @@ def fifo_with_injection(prog: dict, at_step: int, what: str, times: int = 1) -> 
             if r in ("empty", "locked"):
                 break
         return run.as_trace({"kind": "inject-" + what, "at": at_step, "times": times, "steps": step})
+    finally:
+        run.close()
+
+
+def fifo_signal_crash(prog: dict, signal_at: int, pers: bool, crash_at: int, late_expire: bool = False) -> dict:
+    """In-order run, a signal sent before delivery step `signal_at` (or when the run goes quiet earlier),
+    process kill after durable commit `crash_at`, restart + recovery, drain."""
+    run = Run(prog, "sigcrash")
+    try:
+        run.start()
+        run.crash_at = {crash_at}
+        state = {"step": 0, "sent": False}
+
+        def body():
+            for _ in range(3000):
+                rows = run.rows()
+                vis = [r for r in rows if not r["locked"] and not r["delayed"] and r["att"] < r["max"]]
+                if vis:
+                    state["step"] += 1
+                if not state["sent"] and (state["step"] >= signal_at or not rows):
+                    state["sent"] = True
+                    for tgt in signal_targets(prog):
+                        run.send_signal(tgt, pers)
+                    continue
+                r = run.step_fifo()
+                if r == "empty":
+                    break
+                if r == "locked":
+                    for row in run.rows():
+                        if row["locked"]:
+                            run.expire(row["qid"])
+
+        if run.run_protected(body):
+            if not late_expire:
+                for row in run.rows():
+                    if row["locked"]:
+                        run.expire(row["qid"])
+            run.sweep()
+            run.run_protected(body)
+        return run.as_trace({"kind": "signal-crash", "signal_at": signal_at, "pers": pers, "crash_at": crash_at,
+                             "late_expire": late_expire})
     finally:
         run.close()
 
@@ -218,6 +274,9 @@ def job(spec: dict[str, Any]) -> list[dict]:
         return [schedule(prog, seed, **spec.get("opts", {})) for seed in spec["seeds"]]
     if kind == "inject":
         return [fifo_with_injection(prog, at, spec["what"], spec.get("times", 1)) for at in spec["at"]]
+    if kind == "signal-crash":
+        return [fifo_signal_crash(prog, sa, spec.get("pers", True), c, spec.get("late_expire", False))
+                for (sa, c) in spec["cases"]]
     if kind == "redeliver":
         return [redeliver(prog, v, a, **spec.get("opts", {})) for (v, a) in spec["cases"]]
     raise ValueError(kind)
